@@ -323,6 +323,10 @@ def run(ctx):
         ctx.check(not reads and not derived, "R9.4", b.loc(), "BearerToken|debug-redacted", f"<BearerToken as Debug>::fmt reads the token field (lines {reads}) or is derived", instance="BearerToken Debug never projects the token")
     disp = [i for i in co.impls if i.get("trait") == "core::fmt::Display" and ty_adt(i["self_ty"]) == BT]
     ctx.check(not disp, "R9.4", "conjure_object", "BearerToken|no-display", "BearerToken implements Display (the token would leak through {} formatting)", instance="BearerToken: no Display impl")
+    # ---------------------------------------------------------------- R9.5 the generator marks an argument safe only if its type is
+    # (shared with C08: an argument wrongly classified safe is copied into SafeParams by the generated handler)
+    from . import c08
+    ctx.include(c08, {"R8.1", "R8.2"}, "R9.5", "an argument whose type can hold unsafe data (unions carry arbitrary unknown variants) must not be classified safe: the generated handler would record it in SafeParams")
 
 
 def base_kind(b, s):
